@@ -18,6 +18,7 @@ RULE = (
     "as real threads under sys.settrace; at every source line of mysensors/transport.py and mysensors/task.py the "
     "thread parks and the harness scheduler picks who runs next. ALL schedules with <= 2 pre-emptions (3 in the "
     "thorough tier; one less for the three-thread producer scenario) are enumerated by stateless DFS, plus Hypothesis-drawn unbounded schedules, "
+    "plus a live-pump phase (the real poll thread started by tasks.start(); while it sits in a slow write other threads queue commands and lines whose handling queues further commands from inside the poll thread; exact queue order expected), "
     "plus Hypothesis-drawn backlogs (up to 4 producers queue up to several thousand commands in drawn bursts while the pump is busy, then the real poll loop drains). Oracle per "
     "schedule: no exception leaves send / the poll loop; the writes recorded are [] or [cmd] (never twice, never "
     "partial); every write happened on a connection open at that instant; with several producers the multiset "
@@ -379,9 +380,118 @@ def backlog_shard(args):
     return stats
 
 
+# -- live pump: the REAL poll thread (tasks.start()), commands queued from other threads and from the pump itself ---
+# While the pump sits in a slow write, the main thread queues commands and inbound lines; some of the lines make
+# the library (presentation request for an unknown node) or the user's event callback queue a further command
+# from INSIDE the poll thread. Everything is sent exactly once in queue order - a command queued by the pump
+# thread goes to the tail like any other.
+
+live_cases = st.fixed_dictionaries({
+    "scenario": st.just("live_pump"),
+    "items": st.lists(st.sampled_from(["cmd", "cmd", "unknown", "callback"]), min_size=2, max_size=7),
+})
+
+
+class SlowConnection(FakeConnection):
+    """The first write blocks until the harness releases it."""
+
+    def __init__(self, name, log):
+        import threading
+
+        super().__init__(name, log)
+        self.in_write = threading.Event()
+        self.release = threading.Event()
+
+    def write(self, data):
+        if not self.in_write.is_set():
+            self.in_write.set()
+            self.release.wait(10)
+        super().write(data)
+
+
+def live_pump(case, stats=None):
+    import time as real_time
+    from collections import deque
+
+    import mysensors
+    from mysensors import transport as mt
+
+    log = []
+    tr = mt.SyncTransport(None, lambda t: None)
+    tr.connect = lambda: None
+    counter = {"cb": 0}
+
+    def callback(msg):
+        counter["cb"] += 1
+        gw.tasks.add_job(str, f"9;9;1;0;24;from-callback-{counter['cb']}\n")
+
+    gw = mysensors.BaseSyncGateway(tr, protocol_version="2.2", event_callback=None)
+    tr.gateway = gw
+    tr.protocol.gateway = gw
+    conn = SlowConnection("A", log)
+    tr.protocol.transport = conn
+    for text in ("1;255;0;0;17;2.2", "1;0;0;0;3;light"):
+        gw.logic(text)
+    gw.tasks.queue.clear()
+    gw.event_callback = callback
+    first = "7;7;1;0;2;1\n"
+    gw.tasks.add_job(str, first)
+    gw.tasks.start()
+    try:
+        if not conn.in_write.wait(10):
+            raise common.HarnessError("the poll thread never reached the connection")
+        queue, expected = deque(), [first]
+        for i, item in enumerate(case["items"]):
+            if item == "cmd":
+                cmd = f"2;{i};1;0;2;0\n"
+                gw.tasks.add_job(str, cmd)
+                queue.append(("cmd", cmd))
+            elif item == "unknown":
+                nid = 20 + i
+                gw.tasks.add_job(gw.logic, f"{nid};0;1;0;2;1")
+                queue.append(("defer", f"{nid};255;3;0;19;\n"))
+            else:
+                gw.tasks.add_job(gw.logic, f"1;0;1;0;2;{i % 2}")
+                queue.append(("defer", None))
+        n_cb = 0
+        while queue:
+            kind, cmd = queue.popleft()
+            if kind == "cmd":
+                expected.append(cmd)
+            else:
+                if cmd is None:
+                    n_cb += 1
+                    cmd = f"9;9;1;0;24;from-callback-{n_cb}\n"
+                queue.append(("cmd", cmd))
+        conn.release.set()
+        deadline = real_time.time() + 10
+        while real_time.time() < deadline and (len(log) < len(expected) or gw.tasks.queue):
+            real_time.sleep(0.01)
+        real_time.sleep(0.05)
+    finally:
+        conn.release.set()
+        gw.tasks._stop_event.set()  # pylint: disable=protected-access
+    wrote = [data.decode() for _, data, _ in log]
+    if wrote != expected:
+        raise Violation("live_pump_order", case, f"[live_pump] items {case['items']}: written {wrote}, queue order is {expected}")
+    if stats is not None:
+        nt = any(i != "cmd" for i in case["items"]) and "cmd" in case["items"]
+        stats.case(f"live:{case['items']}" if nt else None, {"scenario": "live_pump", "items": case["items"], "written": len(wrote)}, labels=("live-pump",))
+
+
+def live_shard(args):
+    seed_value, n = args
+    common.setup_path()
+    stats = common.Stats()
+    common.run_given(stats, live_cases, lambda c: live_pump(c, stats), n, seed_value, shrink=True)
+    return stats
+
+
 def check_case(case, stats=None):
     if case.get("scenario") == "backlog":
         return backlog(case, stats)
+    if case.get("scenario") == "live_pump":
+        return live_pump(case, stats)
     run, ctx = sched.run_schedule(make_scenario(case["scenario"]), files(), case["schedule"])
     judge(run, ctx, stats, "replay")
 
@@ -406,6 +516,9 @@ def main(tier):
         run_.stats.merge(stats)
     n = 40 if tier == "quick" else 600
     for stats in common.pool_map(backlog_shard, [(common.shard_seed(common.seed(), 50 + i), n) for i in range(8)]):
+        run_.stats.merge(stats)
+    n = 12 if tier == "quick" else 150
+    for stats in common.pool_map(live_shard, [(common.shard_seed(common.seed(), 70 + i), n) for i in range(8)]):
         run_.stats.merge(stats)
     run_.extra["preemption_bound"] = bound
     return run_.finish()
